@@ -36,6 +36,10 @@ pub struct C14Plan {
     pub net: NetPlan,
     /// after a 101, run a real multiplexor client on the socket and echo through a target
     pub try_tunnel: bool,
+    /// 0 = no backend (configured 404), 1 = a backend is configured and answers, 2 = a backend is
+    /// configured but nobody listens there (the proxy attempt fails: configured 404)
+    #[serde(default)]
+    pub backend: u8,
 }
 
 fn header_lines(name: &str, exact: &str, cased: &str, near: &str, v: u8) -> String {
@@ -197,7 +201,43 @@ pub fn run(plan: &C14Plan, sched: &Sched) -> Outcome {
         Sched::Recorded(_) => 1,
     };
     let p = plan.clone();
-    let (main, twin, tunnel, digest, events, t_end) = run_world(seed, &plan.net, move || async move {
+    let (main, twin, tunnel, digest, events, t_end, backend_saw) = run_world(seed, &plan.net, move || async move {
+        // the backend: a raw HTTP/1.1 server that answers every request alike and records what it was asked
+        let backend_saw: std::sync::Arc<std::sync::Mutex<Vec<String>>> = Default::default();
+        if p.backend % 3 == 1 {
+            let bl = TcpListener::bind("127.0.0.1:8000").await.expect("bind backend");
+            let saw = backend_saw.clone();
+            tokio::spawn(async move {
+                loop {
+                    let Ok((mut s, _)) = bl.accept().await else { break };
+                    let saw = saw.clone();
+                    tokio::spawn(async move {
+                        loop {
+                            let mut head = vec![];
+                            let mut b = [0u8; 1];
+                            while !head.ends_with(b"\r\n\r\n") {
+                                match s.read(&mut b).await {
+                                    Ok(0) | Err(_) => return,
+                                    Ok(_) => head.push(b[0]),
+                                }
+                                if head.len() > 16_384 {
+                                    return;
+                                }
+                            }
+                            let text = String::from_utf8_lossy(&head).to_string();
+                            let first = text.split("\r\n").next().unwrap_or("").to_string();
+                            let is_head = first.starts_with("HEAD ");
+                            saw.lock().unwrap().push(first);
+                            let body = "hello from the backend";
+                            let resp = format!("HTTP/1.1 200 OK\r\ncontent-length: {}\r\ncontent-type: text/plain\r\nx-served-by: backend\r\n\r\n{}", body.len(), if is_head { "" } else { body });
+                            if s.write_all(resp.as_bytes()).await.is_err() {
+                                return;
+                            }
+                        }
+                    });
+                }
+            });
+        }
         // target for the tunnel test
         let target = TcpListener::bind("127.0.0.1:9000").await.expect("bind target");
         tokio::spawn(async move {
@@ -220,7 +260,9 @@ pub fn run(plan: &C14Plan, sched: &Sched) -> Outcome {
         });
         static PSK_HV: std::sync::OnceLock<http::HeaderValue> = std::sync::OnceLock::new();
         let psk: Option<&'static http::HeaderValue> = if p.psk_on { Some(PSK_HV.get_or_init(|| http::HeaderValue::from_static(PSK))) } else { None };
-        let state = State::new().await.expect("state").with_not_found_resp("nothing to see here").with_ws_psk(psk).obfs(p.obfs);
+        static BACKEND: std::sync::OnceLock<rusty_penguin_lib::arg::BackendUrl> = std::sync::OnceLock::new();
+        let backend = if p.backend % 3 == 0 { None } else { Some(BACKEND.get_or_init(|| std::str::FromStr::from_str("http://127.0.0.1:8000").expect("backend url"))) };
+        let state = State::new().await.expect("state").with_not_found_resp("nothing to see here").with_ws_psk(psk).obfs(p.obfs).with_backend(backend);
         let sl = TcpListener::bind("127.0.0.1:8080").await.expect("bind server");
         tokio::spawn(run_listener(sl, None, state));
         let path = PATHS[(p.path as usize) % 6];
@@ -263,17 +305,19 @@ pub fn run(plan: &C14Plan, sched: &Sched) -> Outcome {
         }
         let (digest, events) = world_digest();
         dump_log();
-        (main, twin, tunnel, digest, events, now())
+        let saw = backend_saw.lock().unwrap().clone();
+        (main, twin, tunnel, digest, events, now(), saw)
     });
     let mut o = Outcome { digest: digest ^ events, steps: events, sim_ms: t_end.as_millis() as u64, ..Default::default() };
     let exp = expect(plan);
     let path = PATHS[(plan.path as usize) % 6];
     let desc = format!(
-        "{} {} (PSK configured: {}, obfs: {}), header variants [Connection, Upgrade, Version, Protocol, Key] = {:?} (0 exact, 1 case-changed, 2 near-miss, 3 absent, 4 empty, 5 duplicated), PSK header variant {} (0 equal, 1 absent, 2 prefix, 3 case, 4 padded), fragments {:?} every {} ms -> {:?} / {:?}",
+        "{} {} (PSK configured: {}, obfs: {}, backend: {}), header variants [Connection, Upgrade, Version, Protocol, Key] = {:?} (0 exact, 1 case-changed, 2 near-miss, 3 absent, 4 empty, 5 duplicated), PSK header variant {} (0 equal, 1 absent, 2 prefix, 3 case, 4 padded), fragments {:?} every {} ms -> {:?} / {:?}",
         METHODS[(plan.method as usize) % 4],
         path,
         plan.psk_on,
         plan.obfs,
+        ["none", "up", "configured but down"][(plan.backend % 3) as usize],
         plan.hv,
         plan.psk % N_PSK,
         plan.frags,
@@ -316,6 +360,22 @@ pub fn run(plan: &C14Plan, sched: &Sched) -> Outcome {
         }
         if gated {
             o.probe("refusal-compared-with-twin", 1);
+        }
+        // with a backend, "the response of an unknown path" is the backend's answer to this very request
+        if gated && plan.backend % 3 == 1 {
+            let m = METHODS[(plan.method as usize) % 4];
+            let want_main = format!("{m} {path} HTTP/1.1");
+            let want_twin = format!("{m} /no-such-path HTTP/1.1");
+            if !backend_saw.contains(&want_main) || !backend_saw.contains(&want_twin) {
+                o.violate("C14:backend-request-mismatch", format!("a refused request to a gated path must be handled like one to an unknown path, i.e. forwarded to the backend unchanged; the backend saw {backend_saw:?}; {desc}"));
+            }
+            if main.get("x-served-by") != Some("backend") {
+                o.violate("C14:not-served-by-backend", format!("the refusal did not come from the configured backend: {:?}; {desc}", main.observable()));
+            }
+            o.probe("refusal-served-by-backend", 1);
+        }
+        if gated && plan.backend % 3 == 2 {
+            o.probe("backend-down-falls-back-to-404", 1);
         }
         if main.err.is_some() && path != "/health" && path != "/version" {
             o.probe("response-problem", 1);
